@@ -797,11 +797,18 @@ def check(run: lib.Run, audit: dict) -> int:
     ok = ok and ok_src and ok_aw
 
     check_faults(run, mod, program)
-    check_instants(run, mod)
-    check_concurrent(run, mod)
-    check_midcall(run, mod)
-    check_symlink(run, mod)
-    check_histories(run, mod, scale=run.boost)
+    for part in (check_instants, check_concurrent, check_midcall, check_symlink, lambda r, m: check_histories(r, m, scale=run.boost)):
+        try:
+            part(run, mod)
+        except lib.CheckError:
+            raise
+        except Exception as e:  # noqa: BLE001
+            # a writer that does not work at all (every fault-free write already failed the spec above) also breaks the set-up of the
+            # later parts: that is the violation already found, not trouble with the infrastructure
+            if not run.spec_failures:
+                raise
+            run.notes.append(f"{getattr(part, '__name__', 'check_histories')} could not run on this tree ({type(e).__name__}: {str(e)[:120]}); "
+                             f"a violation had already been found")
     if (run.disagreements or not ok) and not run.spec_failures:
         # a proof obligation or the correspondence broke: widen the search for a failing input on the real code
         check_faults(run, mod, program, wide=True)
@@ -820,25 +827,24 @@ def check(run: lib.Run, audit: dict) -> int:
                                          "shape_obligation_discharged": ok_shape, "C16_translated_discharged": ok_src,
                                          "C16_atomic_discharged": ok_aw})
         violations.append((path, True))
-    elif ok_shape and not (ok_src and ok_aw):
-        which = [n for n, o in (("C16_translated", ok_src), ("C16_atomic", ok_aw)) if not o]
+    elif not ok:
+        which = [n for n, o in (("C16_shape", ok_shape), ("C16_translated", ok_src), ("C16_atomic", ok_aw)) if not o]
         d = next((x for x in run.disagreements if x.get("kind") != "translated"), None)
-        path = run.write_replay("obligation", {"what": f"per-run obligation(s) Rbacx/Run/{' / '.join(which)}.lean no longer check: the translated source of "
-                                               + ("FilePolicySource is not proved equal to the model's ensureSha / etag / load " if not ok_src else "")
-                                               + ("atomic_write is not proved to run as runSteps on the canonical program " if not ok_aw else "")
-                                               + "— the functions the theorems Rbacx.C16.* are about; the widened search "
+        path = run.write_replay("obligation", {"what": f"per-run obligation(s) Rbacx/Run/{' / '.join(which)}.lean no longer check: "
+                                               + ("the traced atomic_write program is not of the shape the theorems Rbacx.C16.c16_all_or_nothing / "
+                                                  "c16_failure_leaves_no_temp / c16_success_writes_new quantify over; " if not ok_shape else "")
+                                               + ("the translated source of FilePolicySource is not proved equal to the model's ensureSha / etag / load; "
+                                                  if not ok_src else "")
+                                               + ("the translated source of atomic_write is not proved to run as runSteps on the canonical program; "
+                                                  if not ok_aw else "")
+                                               + "the theorems Rbacx.C16.* no longer speak about this code; the widened search "
                                                + ("found an input on which model and real code differ" if d else "found no input on which the real "
                                                   "code violates C16 or differs from the model (no-failing-input-found)"),
-                                               "lean": {"C16_translated": None if ok_src else detail_src[-1500:], "C16_atomic": None if ok_aw else detail_aw[-1500:]},
+                                               "traced_program": program,
+                                               "lean": {"C16_shape": None if ok_shape else detail[-1500:], "C16_translated": None if ok_src else detail_src[-1500:],
+                                                        "C16_atomic": None if ok_aw else detail_aw[-1500:]},
                                                "translation": {k: v.get("failed") for k, v in tr.items()},
-                                               "first_disagreement": d})
-        violations.append((path, False))
-    elif not ok:
-        path = run.write_replay("obligation", {"what": "proof obligation Rbacx/Run/C16_shape.lean no longer checks: the traced atomic_write "
-                                               "program is not of the shape the theorems Rbacx.C16.c16_all_or_nothing / "
-                                               "c16_failure_leaves_no_temp / c16_success_writes_new quantify over",
-                                               "traced_program": program, "lean": detail[-1500:],
-                                               "first_disagreement": run.disagreements[0] if run.disagreements else None})
+                                               "first_disagreement": d or (run.disagreements[0] if run.disagreements else None)})
         violations.append((path, False))
     elif run.disagreements:
         path = run.write_replay("correspondence", {"what": "model (Rbacx.FileSrc.runSteps / trace) and implementation disagree; theorems "
